@@ -58,17 +58,20 @@ OutOK(ln) == (HasNet(ln) /\ ln.norm = 2) =>
 (* ---------------------------- numeric clauses ---------------------------- *)
 \* value of a 1-norm flavour / squared norm of a 2-norm flavour, recomputed by TLC
 ExpectedValue(net, norm, out) == IF norm = 1 THEN ZOf(net) ELSE <<Norm2Of(net, out), 0>>
-ValueOK(ln, net, norm, out) ==
-  /\ Has(ln, "value") => (~ln.value.off /\ <<ln.value.v[1], ln.value.v[2]>> = ExpectedValue(net, norm, out))
+ValueIs(ln, z) ==
+  /\ Has(ln, "value") => (~ln.value.off /\ <<ln.value.v[1], ln.value.v[2]>> = z)
   /\ Has(ln, "dqvalue") => ln.dqvalue = 0
-\* index marginals: 1-norm: of any label; 2-norm: of an outer label (probabilities |amp|^2)
-IMargOK(ln, net, norm, out) ==
+ValueOK(ln, net, norm, out) ==
+  /\ Has(ln, "value") => ValueIs(ln, ExpectedValue(net, norm, out))
+  /\ Has(ln, "dqvalue") => ln.dqvalue = 0
+\* index marginals: 1-norm: of any label (from the joint table J over labs); 2-norm: of an outer label
+IMargOK(ln, net, norm, out, J, labs, A) ==
   /\ Has(ln, "imarg") =>
        \A k \in DOMAIN ln.imarg :
           LET q == ln.imarg[k] IN
           /\ ~q.off
-          /\ IF norm = 1 THEN RatVecMatches(q.p, MargOf(net, <<q.x>>))
-             ELSE RatVecMatchesI(q.p, ProbMargOf(net, out, PosIn(out, q.x)))
+          /\ IF norm = 1 THEN RatVecMatches(q.p, MargFromJoint(J, DimsOf(net, labs), <<PosIn(labs, q.x)>>))
+             ELSE RatVecMatchesI(q.p, ProbMargFromAmp(A, DimsOf(net, out), PosIn(out, q.x)))
   /\ Has(ln, "dqimarg") => ln.dqimarg = 0
 \* final messages (1-norm dense / hyper): proportional to the contraction of everything behind the sender
 FMsgOK(ln, net, name, E) ==
@@ -88,7 +91,8 @@ OnInit(ln) ==
       G == IF dom THEN GraphInfo(N, E) ELSE EmptyGraph
       lvl == InitLvl(ln, G)
       ex == SetOfPairs(ln.exact)
-      s == [tid |-> ln.tid, ok |-> dom /\ ln.exc = "", G |-> G, lvl |-> lvl, prevEx |-> ex, rec |-> ln, n |-> 0]
+      s == [tid |-> ln.tid, ok |-> dom /\ ln.exc = "", G |-> G, lvl |-> lvl, prevEx |-> ex, rec |-> ln, n |-> 0,
+            J |-> <<>>, labs |-> <<>>]
   IN << << <<"InDomain", dom>>,
            <<"Returns", ln.exc = "">>,
            <<"MessagesMatchGraph", dom /\ ln.exc = "" => SetOfPairs(ln.msgs) = G.msgs>>,
@@ -116,24 +120,32 @@ OnEnd(ln, s) ==
       net == IF exactnet THEN r.net ELSE <<>>
       name == IF exactnet THEN r.name ELSE <<>>
       out == IF exactnet THEN r.out ELSE <<>>
+      \* 1-norm: the table of all products, once; the value and every marginal are sums over it
+      labs == IF exactnet /\ r.norm = 1 THEN AllLabels(net) ELSE <<>>
+      J == IF exactnet /\ r.norm = 1 /\ ln.exc = "" THEN JointOf(net, labs) ELSE <<>>
+      A == IF exactnet /\ r.norm = 2 /\ ln.exc = "" THEN AmpOf(net, out) ELSE <<>>
+      z == IF exactnet THEN (IF r.norm = 1 THEN GSum(J) ELSE <<Norm2OfAmp(A), 0>>) ELSE GZero
   IN << << <<"Returns", ln.exc = "">>,
            <<"Converges", ln.exc = "" => ln.converged>>,
            <<"ExactAtFixpoint", ln.exc = "" /\ ln.converged => ex = s.G.msgs>>,
            <<"Stable", ln.exc = "" => StableOK(s, ex)>>,
-           \* iterations counted by run(): schedule independent bound (no damping)
+           \* iterations counted by run(): schedule independent bound (no damping).  Level 0 is used for
+           \* every initialisation: initial messages may be normalised differently from updated ones
+           \* (D1BP: not at all, HD1BP: by their sum), which costs one more sweep.
            <<"IterBound", ln.exc = "" /\ ~r.opts.damped /\ Has(ln, "iterations") =>
-                             ln.iterations <= IterBound(s.G, L0Of(r))>>,
-           <<"ValueExact", ln.exc = "" => ValueOK(ln, net, r.norm, out)>>,
-           <<"IndexMarginalExact", ln.exc = "" => IMargOK(ln, net, r.norm, out)>>,
+                             ln.iterations <= IterBound(s.G, 0)>>,
+           <<"ValueExact", ln.exc = "" => ValueIs(ln, z)>>,
+           <<"IndexMarginalExact", ln.exc = "" => IMargOK(ln, net, r.norm, out, J, labs, A)>>,
            <<"TensorMarginalExact", ln.exc = "" => (Has(ln, "dqtmarg") => ln.dqtmarg = 0)>>,
            <<"MessagesExact", ln.exc = "" => FMsgOK(ln, net, name, s.G.E)>> >>,
-        [s EXCEPT !.prevEx = ex] >>
+        [s EXCEPT !.prevEx = ex, !.J = J, !.labs = labs] >>
 
 \* one tensor marginal read from the converged messages (records following the end record)
 OnTMarg(ln, s) ==
   << << <<"Returns", ln.exc = "">>,
         <<"TensorMarginalExact", (ln.exc = "" /\ Has(ln, "p")) =>
-              (~ln.off /\ RatVecMatches(ln.p, MargOf(s.rec.net, s.rec.net[ln.t].inds)))>> >>,
+              (~ln.off /\ RatVecMatches(ln.p, MargFromJoint(s.J, DimsOf(s.rec.net, s.labs),
+                                     [k \in DOMAIN s.rec.net[ln.t].inds |-> PosIn(s.labs, s.rec.net[ln.t].inds[k])])))>> >>,
      s >>
 
 \* functional entry points: contract_*bp
